@@ -67,6 +67,7 @@ func (s *Storer) Load(_ context.Context, key string) (authboss.User, error) {
 	if err := s.fault("Load", authboss.ErrUserNotFound); err != nil {
 		return nil, err
 	}
+	defer s.S.guard()()
 	r, ok := s.db().Users[key]
 	if !ok {
 		return nil, authboss.ErrUserNotFound
@@ -79,6 +80,7 @@ func (s *Storer) Save(_ context.Context, user authboss.User) error {
 	if err := s.fault("Save", authboss.ErrUserNotFound); err != nil {
 		return err
 	}
+	defer s.S.guard()()
 	r, ok := rowOf(user)
 	if !ok {
 		return errors.New("storer: foreign user type")
@@ -98,6 +100,7 @@ func (s *Storer) Create(_ context.Context, user authboss.User) error {
 	if err := s.fault("Create", authboss.ErrUserFound); err != nil {
 		return err
 	}
+	defer s.S.guard()()
 	r, ok := rowOf(user)
 	if !ok {
 		return errors.New("storer: foreign user type")
@@ -123,6 +126,7 @@ func (s *Storer) LoadByConfirmSelector(_ context.Context, selector string) (auth
 	if err := s.fault("LoadByConfirmSelector", authboss.ErrUserNotFound); err != nil {
 		return nil, err
 	}
+	defer s.S.guard()()
 	if selector != "" {
 		for _, pid := range s.db().PIDs() {
 			if r := s.db().Users[pid]; r.ConfirmSelector == selector {
@@ -138,6 +142,7 @@ func (s *Storer) LoadByRecoverSelector(_ context.Context, selector string) (auth
 	if err := s.fault("LoadByRecoverSelector", authboss.ErrUserNotFound); err != nil {
 		return nil, err
 	}
+	defer s.S.guard()()
 	if selector != "" {
 		for _, pid := range s.db().PIDs() {
 			if r := s.db().Users[pid]; r.RecoverSelector == selector {
@@ -153,6 +158,7 @@ func (s *Storer) AddRememberToken(_ context.Context, pid, token string) error {
 	if err := s.fault("AddRememberToken", nil); err != nil {
 		return err
 	}
+	defer s.S.guard()()
 	s.db().Tokens[pid] = append(s.db().Tokens[pid], token)
 	return nil
 }
@@ -162,6 +168,7 @@ func (s *Storer) DelRememberTokens(_ context.Context, pid string) error {
 	if err := s.fault("DelRememberTokens", nil); err != nil {
 		return err
 	}
+	defer s.S.guard()()
 	delete(s.db().Tokens, pid)
 	return nil
 }
@@ -171,6 +178,7 @@ func (s *Storer) UseRememberToken(_ context.Context, pid, token string) error {
 	if err := s.fault("UseRememberToken", authboss.ErrTokenNotFound); err != nil {
 		return err
 	}
+	defer s.S.guard()()
 	toks := s.db().Tokens[pid]
 	for i, t := range toks {
 		if t == token {
@@ -191,6 +199,7 @@ func (s *Storer) NewFromOAuth2(_ context.Context, provider string, details map[s
 	if err := s.fault("NewFromOAuth2", nil); err != nil {
 		return nil, err
 	}
+	defer s.S.guard()()
 	uid := details["uid"]
 	pid := authboss.MakeOAuth2PID(provider, uid)
 	if r, ok := s.db().Users[pid]; ok {
@@ -205,6 +214,7 @@ func (s *Storer) SaveOAuth2(_ context.Context, user authboss.OAuth2User) error {
 	if err := s.fault("SaveOAuth2", nil); err != nil {
 		return err
 	}
+	defer s.S.guard()()
 	r, ok := rowOf(user)
 	if !ok {
 		return errors.New("storer: foreign user type")
